@@ -113,9 +113,10 @@ def mapOut {α β : Type} (f : α → Out β) : List α → Out (List β)
 
 /-- `write_choice` -/
 def writeChoice (c : Choice) (origThread : Nat) : Json :=
-  .obj [("text", .str c.text), ("index", .num c.index), ("originalChoicePath", .str c.sourcePath),
-        ("originalThreadIndex", .num origThread), ("targetPath", .str (String.ofList c.targetPath.toText)),
-        ("tags", Json.ofStrs c.tags)]
+  .obj ([("text", .str c.text), ("index", .num c.index), ("originalChoicePath", .str c.sourcePath),
+         ("originalThreadIndex", .num origThread), ("targetPath", .str (String.ofList c.targetPath.toText)),
+         ("tags", Json.ofStrs c.tags)]
+        ++ (if c.isInvisibleDefault then [("isInvisibleDefault", Json.bool true)] else []))
 
 /-- `Flow::write_json` -/
 def writeFlow (root : Obj) (f : Flow) : Out Json :=
@@ -238,7 +239,9 @@ def readChoice (tok : Json) : Out Choice :=
         | some _ => bad "tags"
       match tags with
       | .ok tg => .ok { text := text, index := index.toNat, sourcePath := src,
-                        targetPath := Path.parse tp.toList, isInvisibleDefault := false, tags := tg,
+                        targetPath := Path.parse tp.toList,
+                        isInvisibleDefault := ((get? tok "isInvisibleDefault").bind Json.asBool?).getD false,
+                        tags := tg,
                         thread := none, originalThreadIndex := oti.toNat }
       | .err k m => .err k m
       | .panic p => .panic p
